@@ -85,10 +85,11 @@ prop(
         "writer (resp. reader) still uses the topic, AlreadyDeleted iff the topic is unknown, every error leaves the topic list "
         "unchanged, Ok removes the topic and a second delete is AlreadyDeleted. delete_participant_contained_entities on a "
         "participant with a publisher (0-1 writer) and a subscriber (0-1 reader): not empty before, Ok, both lists empty and "
-        "is_participant_empty() (the factory's deletion precondition) afterwards; the same with a user topic. KNOWN FINDING "
-        "KF-C36-1: once a content-filtered topic was created the participant is never empty again (delete_content_filtered_topic "
-        "is a no-op returning Ok, delete_contained_entities does not clear content_filtered_topic_list) - kept as a __known "
-        "harness restricted to that trigger with a __rest sibling. NOT READY: the quick tier did not complete within the caps "
+        "is_participant_empty() (the factory's deletion precondition) afterwards; the same with a user topic. OBSERVATION FROM "
+        "CODE READING (not confirmed by a completed run, not a registered finding): once a content-filtered topic was created the "
+        "participant is never empty again (delete_content_filtered_topic is a no-op returning Ok, delete_contained_entities does "
+        "not clear content_filtered_topic_list, is_empty() requires it empty) - a harness restricted to that trigger and a "
+        "sibling without it are written. NOT READY: the quick tier did not complete within the caps "
         "when it was last measured (first two harnesses still running after 580 s at 5-7 GB); see the family report."),
     bounds="one topic, one publisher with 0-1 writer, one subscriber with 0-1 reader, 0-1 content-filtered topic; handles / "
            "names chosen among {valid, unknown}; global unwind 2 plus the per-loop bounds of vlib/ptab/part1.py",
@@ -101,8 +102,7 @@ prop(
     level_text="bounded model checking of the real participant code (Kani/CBMC): one real delete operation on a constructed tree "
                "of at most one entity per kind, shape and arguments symbolic.",
     level_note="trusted: Kani/CBMC, the bottom-up fixtures of support_part1.rs (entities constructed with the constructor "
-               "arguments of publisher_methods.rs / subscriber_methods.rs / participant_methods.rs). One open finding (KF-C36-1) "
-               "is reported on every run, not suppressed.",
+               "arguments of publisher_methods.rs / subscriber_methods.rs / participant_methods.rs). No finding is registered for this property (the content-filtered-topic observation is unconfirmed).",
     technique=_TECH,
     assumptions=_STUBS_COMMON + [
         "stub: TypeInformation::from(DynamicType) returns fixed TkNone identifiers (MD5 over XTypes-serialized type objects)",
@@ -125,11 +125,14 @@ prop(
         "get_publication_matched_status returns) and UserDefinedDataReader::get_subscription_matched_status on ANY counter "
         "values: the snapshot equals the stored counters (the change fields are the difference since the previous read), "
         "both change fields are reset, current_count / total_count are kept, a second read reports no change. (b) "
-        "UserDefinedDataReader::add_matched_publication with one matched writer and any consistent counters: a NEW writer is "
-        "appended, current_count == list length, current_count_change / total_count / total_count_change grow by exactly 1 "
-        "(__rest harness); KNOWN FINDING KF-C16-4: a re-announcement of an ALREADY matched writer (QoS update; "
-        "process_discovered_writers skips only announcements identical to the stored one) replaces the entry but increments the "
-        "three counters again, so total_count counts one match twice (__known harness, reported on every run). Only these "
+        "UserDefinedDataReader::add_matched_publication with one matched writer and any consistent counters, for both "
+        "kinds of announcement its caller produces: a NEW writer is appended, current_count == list length, "
+        "current_count_change / total_count / total_count_change grow by exactly 1; a re-announcement of an ALREADY matched "
+        "writer (QoS update; process_discovered_writers skips only announcements identical to the stored one) replaces the "
+        "stored data and leaves the list length and all three counters unchanged. This check FOUND the defect that a "
+        "re-announcement incremented the three counters again (total_count counted one match twice); it was repaired in /repo "
+        "(reader side and the writer-side twin in process_discovered_readers) and is recorded as fixed in "
+        "known_findings.json - the single harness now must pass for both cases. Only these "
         "two sentences of the property (change fields = difference since last read; total_count counts each distinct match "
         "once on the reader side) are claimed; every removal path is NOT decided (see outside)."),
     bounds="one matched publication before the step; counters: total_count in [1, 10^6), total_count_change in [0,total], "
@@ -145,10 +148,12 @@ prop(
             "updates the counters but never calls delete_matched_reader, so the RTPS proxy of a deleted reader stays. Also "
             "outside: the additions inside process_discovered_readers / process_discovered_writers (partition regex, type "
             "compatibility on DynamicType), 'QoS becomes incompatible => counts drop', two or more matched endpoints, listener / "
-            "status-condition notifications (C33), the writer-side twin of KF-C16-4 (inline in process_discovered_readers)",
+            "status-condition notifications (C33); the repaired writer-side twin of the counting code is inline in "
+            "process_discovered_readers and not executed here",
     level_text="bounded model checking of the real entity functions (Kani/CBMC) from constructed pre-states with symbolic status "
                "counters; one matched endpoint.",
-    level_note="trusted: Kani/CBMC. Open finding KF-C16-4 is reported on every run (KNOWN-FINDING line), not suppressed.",
+    level_note="trusted: Kani/CBMC. The defect found by this check (KF-C16-4, double counting on re-announcement) was repaired in "
+               "/repo and is recorded as fixed; nothing is suppressed.",
     technique=_TECH,
     assumptions=[
         "critical_section::acquire/release are no-ops (sequential schedules only)",
